@@ -1,6 +1,9 @@
 import CalicoVerif.Util.Proto
 import CalicoVerif.Model.C44
-/-! Driver for C44. Ops: `new` | `up <id> <iface> <adminUp 0|1> <data>` | `rm <id>`; every op answers the dump
+/-! Driver for C44. Ops: `new` | `up <id> <iface> <adminUp 0|1> <data>` | `rm <id>` |
+`batch u:<id>:<iface>:<up>:<data> r:<id> …` (several updates, ONE CompleteDeferredWork; answers `ok` and keeps
+every outcome any processing order can give) | `observe <dump with _ for space>` (answers `member` iff the
+observed real state is one of those outcomes, and continues from it); every other op answers the dump
 `A[id=iface.up.data,…] I[iface=id,…] S[id=iface.up.data,…] C[iface=id.data|iface=down,…] R[iface=id.data,…]`. -/
 open CalicoVerif CalicoVerif.C44 CalicoVerif.Proto
 
@@ -14,7 +17,23 @@ def dump (m : Mgr) : String :=
   s!"C[{showMap m.chains (fun c => if c.up then s!"{c.id}.{c.data}" else "down")}] " ++
   s!"R[{showMap m.routes (fun r => s!"{r.1}.{r.2}")}]"
 
-def step (m : Mgr) (line : String) : Mgr × String :=
+structure St where
+  m : Mgr
+  cands : List Mgr   -- possible states after a `batch`, until the `observe`
+
+def parseEntry (w : String) : Option (Nat × Option Ep) :=
+  match w.splitOn ":" with
+  | ["u", a, b, c, d] => match a.toNat?, b.toNat?, c.toNat?, d.toNat? with
+    | some id, some n, some u, some dt => some (id, some { name := n, up := u != 0, data := dt })
+    | _, _, _, _ => none
+  | ["r", a] => a.toNat?.map (fun id => (id, none))
+  | _ => none
+
+def dedupStr : List String → List String
+  | [] => []
+  | x :: r => if r.contains x then dedupStr r else x :: dedupStr r
+
+def stepM (m : Mgr) (line : String) : Mgr × String :=
   match words line with
   | ["new"] => (Mgr.new, dump Mgr.new)
   | ["up", a, b, c, d] => match a.toNat?, b.toNat?, c.toNat?, d.toNat? with
@@ -27,4 +46,16 @@ def step (m : Mgr) (line : String) : Mgr × String :=
     | none => (m, "bad-op")
   | _ => (m, "bad-op")
 
-def main : IO Unit := run step Mgr.new
+def step (s : St) (line : String) : St × String :=
+  match words line with
+  | "batch" :: es => match es.mapM parseEntry with
+    | some us => ({ s with cands := s.m.batch us }, "ok")
+    | none => (s, "bad-op")
+  | ["observe", d] =>
+    let want := d.replace "_" " "
+    match s.cands.find? (fun c => dump c == want) with
+    | some c => ({ m := c, cands := [] }, "member")
+    | none => (s, "not-member:" ++ joinWith "|" (dedupStr (s.cands.map dump)))
+  | _ => let (m', o) := stepM s.m line; ({ m := m', cands := [] }, o)
+
+def main : IO Unit := run step { m := Mgr.new, cands := [] }
